@@ -473,7 +473,20 @@ func checkTranslate(c *Ctx) {
 		case res == nil:
 			c.undecided("SHAPE-XLATE", "Translate:lookup=table[ToUpper(window)]", tr.Pos(), "the result is not a strings.Builder's content")
 		case len(out) != 1:
-			c.undecided("SHAPE-XLATE", "Translate:lookup=table[ToUpper(window)]", tr.Pos(), fmt.Sprintf("%d sites write the result, the model needs one", len(out)))
+			// several write sites: a residue that is a fixed letter rather than the table's answer for the
+			// window is evidence by itself (the protein must be what the table says for every codon)
+			constSite := false
+			for _, o := range out {
+				as := o.Common().Args
+				if k, isC := as[len(as)-1].(*ssa.Const); isC && k.Value != nil && len(k.Value.ExactString()) > 2 {
+					constSite = true
+					c.bad("SHAPE-XLATE", "Translate:lookup=table[ToUpper(window)]", o.Pos(), "on some path the residue written for a complete codon is the constant "+k.Value.ExactString()+" instead of the table's entry for that codon: the translation of a sequence is no longer the table applied codon by codon (e.g. a first codon listed as a start codon is written as M whatever it encodes)")
+					break
+				}
+			}
+			if !constSite {
+				c.undecided("SHAPE-XLATE", "Translate:lookup=table[ToUpper(window)]", tr.Pos(), fmt.Sprintf("%d sites write the result, the model needs one", len(out)))
+			}
 		default:
 			ow := out[0]
 			want := "lookup(call[" + genName + "](param[1]), call[strings.ToUpper](" + wi.Key + "))"
